@@ -7,53 +7,53 @@ open ImathVerif
 
 /-- extracted from the C++ template at T = Sym; 1 path(s) -/
 def Sphere3.circumscribe {α : Type} [Add α] [Sub α] [Mul α] [Div α] [Neg α] [LT α] [LE α] [DecidableLT α] [DecidableLE α] [DecidableEq α] [OfNat α 0] [OfNat α 1] [OfNat α 2] (tmin : α) (sqrt : α → α) (b : Box3 α) : (Sphere3 α) :=
-  let t842 := (((1 : α) / (2 : α)) * (b.min.z + b.max.z))
-  let t843 := (((1 : α) / (2 : α)) * (b.min.y + b.max.y))
-  let t844 := (((1 : α) / (2 : α)) * (b.min.x + b.max.x))
-  ⟨⟨t844, t843, t842⟩, (V3.length tmin sqrt ⟨(b.max.x - t844), (b.max.y - t843), (b.max.z - t842)⟩)⟩
+  let t859 := (((1 : α) / (2 : α)) * (b.min.z + b.max.z))
+  let t860 := (((1 : α) / (2 : α)) * (b.min.y + b.max.y))
+  let t861 := (((1 : α) / (2 : α)) * (b.min.x + b.max.x))
+  ⟨⟨t861, t860, t859⟩, (V3.length tmin sqrt ⟨(b.max.x - t861), (b.max.y - t860), (b.max.z - t859)⟩)⟩
 
 /-- extracted from the C++ template at T = Sym; 4 path(s) -/
 def Sphere3.intersectT {α : Type} [Add α] [Sub α] [Mul α] [Div α] [Neg α] [LT α] [DecidableLT α] [OfNat α 0] [OfNat α 1] [OfNat α 2] [OfNat α 4] (sqrt : α → α) (s : Sphere3 α) (l : Line3 α) : (Bool × α) :=
-  let t853 := (l.pos.z - s.center.z)
-  let t854 := (l.pos.y - s.center.y)
-  let t855 := (l.pos.x - s.center.x)
-  let t861 := ((2 : α) * (((l.dir.x * t855) + (l.dir.y * t854)) + (l.dir.z * t853)))
-  let t872 := ((t861 * t861) - ((4 : α) * ((((t855 * t855) + (t854 * t854)) + (t853 * t853)) - (s.radius * s.radius))))
-  let t873 := (sqrt t872)
-  let t874 := (-t861)
-  let t876 := ((t874 - t873) * ((1 : α) / (2 : α)))
-  let t878 := ((t874 + t873) * ((1 : α) / (2 : α)))
-  if t872 < (0 : α) then
+  let t870 := (l.pos.z - s.center.z)
+  let t871 := (l.pos.y - s.center.y)
+  let t872 := (l.pos.x - s.center.x)
+  let t878 := ((2 : α) * (((l.dir.x * t872) + (l.dir.y * t871)) + (l.dir.z * t870)))
+  let t889 := ((t878 * t878) - ((4 : α) * ((((t872 * t872) + (t871 * t871)) + (t870 * t870)) - (s.radius * s.radius))))
+  let t890 := (sqrt t889)
+  let t891 := (-t878)
+  let t893 := ((t891 - t890) * ((1 : α) / (2 : α)))
+  let t895 := ((t891 + t890) * ((1 : α) / (2 : α)))
+  if t889 < (0 : α) then
     (false, (0 : α))
   else
-    if t876 < (0 : α) then
-      if t878 < (0 : α) then
-        (false, t878)
+    if t893 < (0 : α) then
+      if t895 < (0 : α) then
+        (false, t895)
       else
-        (true, t878)
+        (true, t895)
     else
-      (true, t876)
+      (true, t893)
 
 /-- extracted from the C++ template at T = Sym; 4 path(s) -/
 def Sphere3.intersect {α : Type} [Add α] [Sub α] [Mul α] [Div α] [Neg α] [LT α] [DecidableLT α] [OfNat α 0] [OfNat α 1] [OfNat α 2] [OfNat α 4] (sqrt : α → α) (s : Sphere3 α) (l : Line3 α) : (Bool × (V3 α)) :=
-  let t853 := (l.pos.z - s.center.z)
-  let t854 := (l.pos.y - s.center.y)
-  let t855 := (l.pos.x - s.center.x)
-  let t861 := ((2 : α) * (((l.dir.x * t855) + (l.dir.y * t854)) + (l.dir.z * t853)))
-  let t872 := ((t861 * t861) - ((4 : α) * ((((t855 * t855) + (t854 * t854)) + (t853 * t853)) - (s.radius * s.radius))))
-  let t873 := (sqrt t872)
-  let t874 := (-t861)
-  let t876 := ((t874 - t873) * ((1 : α) / (2 : α)))
-  let t878 := ((t874 + t873) * ((1 : α) / (2 : α)))
-  if t872 < (0 : α) then
+  let t870 := (l.pos.z - s.center.z)
+  let t871 := (l.pos.y - s.center.y)
+  let t872 := (l.pos.x - s.center.x)
+  let t878 := ((2 : α) * (((l.dir.x * t872) + (l.dir.y * t871)) + (l.dir.z * t870)))
+  let t889 := ((t878 * t878) - ((4 : α) * ((((t872 * t872) + (t871 * t871)) + (t870 * t870)) - (s.radius * s.radius))))
+  let t890 := (sqrt t889)
+  let t891 := (-t878)
+  let t893 := ((t891 - t890) * ((1 : α) / (2 : α)))
+  let t895 := ((t891 + t890) * ((1 : α) / (2 : α)))
+  if t889 < (0 : α) then
     (false, ⟨(0 : α), (0 : α), (0 : α)⟩)
   else
-    if t876 < (0 : α) then
-      if t878 < (0 : α) then
+    if t893 < (0 : α) then
+      if t895 < (0 : α) then
         (false, ⟨(0 : α), (0 : α), (0 : α)⟩)
       else
-        (true, ⟨(l.pos.x + (l.dir.x * t878)), (l.pos.y + (l.dir.y * t878)), (l.pos.z + (l.dir.z * t878))⟩)
+        (true, ⟨(l.pos.x + (l.dir.x * t895)), (l.pos.y + (l.dir.y * t895)), (l.pos.z + (l.dir.z * t895))⟩)
     else
-      (true, ⟨(l.pos.x + (l.dir.x * t876)), (l.pos.y + (l.dir.y * t876)), (l.pos.z + (l.dir.z * t876))⟩)
+      (true, ⟨(l.pos.x + (l.dir.x * t893)), (l.pos.y + (l.dir.y * t893)), (l.pos.z + (l.dir.z * t893))⟩)
 
 end ImathVerif.Gen
